@@ -250,6 +250,54 @@ func (c *viewChecker) pair(a, b *ClusterView, opts MergeOptions) (nontrivial boo
 	return vfMemSig(x) != beforeMem
 }
 
+// pairExpired: the merge as NodeActor performs it, i.e. with MergeOptions.IsExpired set (getMergeOptions always sets it):
+// members that the receiving view does not hold and whose LastSeen is past the removal threshold are not adopted (removal
+// is local, a pure union would re-add crashed members for ever). That filter speaks of UNKNOWN members only: for a member
+// the view already holds the newest incarnation still wins, whatever LastSeen the sender recorded for it; nothing is
+// removed or regressed; members that are not expired are adopted; the changed flag tells the truth. expiredIDs: the ids
+// whose entry in the incoming view carries a stale LastSeen (the sender has not heard from them for a long time).
+func (c *viewChecker) pairExpired(a, b *ClusterView, strat int, expiredIDs map[string]bool) {
+	key := fmt.Sprintf("is-expired/strategy=%d", strat)
+	const stale = int64(1)
+	x := a.Snapshot()
+	bIn := b.Snapshot()
+	for id, m := range bIn.Members {
+		if expiredIDs[id] {
+			m.LastSeen = stale
+		}
+	}
+	opts := MergeOptions{VersionConcurrentStrategy: strat, IsExpired: func(m *NodeState) bool { return m.LastSeen == stale }}
+	beforeMembers := map[string]*NodeState{}
+	for id, m := range x.Members {
+		beforeMembers[id] = m.Clone()
+	}
+	beforeVV := x.VersionVector.Clone()
+	ch := x.MergeFromWithOptions(bIn, opts)
+	for id, m := range beforeMembers {
+		r := x.Members[id]
+		if r == nil {
+			c.bad("merge-removes-member", key, "id=%s a=[%s] b=[%s] res=[%s]", id, vfMemSig(a), vfMemSig(b), vfMemSig(x))
+			continue
+		}
+		if vfNewer(m, r) {
+			c.bad("merge-regresses-member", key, "id=%s had g%d/lc%d now g%d/lc%d", id, m.Generation, m.LogicalClock, r.Generation, r.LogicalClock)
+		}
+		if o := b.Members[id]; o != nil && vfNewer(o, r) {
+			c.bad("merge-not-newest", key, "id=%s is held by the receiving view at g%d/lc%d, the incoming view has g%d/lc%d (its LastSeen there is stale=%v), the result keeps g%d/lc%d", id, m.Generation, m.LogicalClock, o.Generation, o.LogicalClock, expiredIDs[id], r.Generation, r.LogicalClock)
+		}
+	}
+	for id := range b.Members {
+		if beforeMembers[id] == nil && !expiredIDs[id] && x.Members[id] == nil {
+			c.bad("merge-misses-member", key, "id=%s is unknown to the receiving view and not expired, yet it was not adopted", id)
+		}
+	}
+	vvChanged := vfModelCompare(beforeVV, x.VersionVector) != VersionEqual
+	memChanged := vfFullSigMembers(x) != vfFullSigMembersOf(beforeMembers)
+	if (vvChanged || memChanged) && !ch {
+		c.bad("changed-flag-false-on-change", key, "a=[%s] b=[%s] res=[%s]", vfMemSig(a), vfMemSig(b), vfMemSig(x))
+	}
+}
+
 func vfFullSigMembers(v *ClusterView) string { return vfFullSigMembersOf(v.Members) }
 func vfFullSigMembersOf(ms map[string]*NodeState) string {
 	ks := []string{}
@@ -337,7 +385,7 @@ func firstKey(m map[string]*NodeState) string {
 }
 
 func TestVerif_viewlaws(t *testing.T) {
-	R := verifrt.NewReport("viewlaws", "pool of views built only through newClusterView/AddMember/IncrementVersion/RemoveMember/status change/generation bump/earlier merges over ids n1..n4; every ordered pair x 3 concurrent-version strategies x 3 clock-skew settings; PRNG triples x 6 orders x 2 associations. non-trivial+distinct = distinct (membership(a), membership(b), strategy) where the merge changed a's membership")
+	R := verifrt.NewReport("viewlaws", "pool of views built only through newClusterView/AddMember/IncrementVersion/RemoveMember/status change/generation bump/earlier merges over ids n1..n4; every ordered pair x 3 concurrent-version strategies x 3 clock-skew settings; PRNG triples x 6 orders x 2 associations. every ordered pair once more the way NodeActor merges (MergeOptions.IsExpired set, PRNG-chosen members carrying a stale LastSeen in the incoming view): held members still move to the newest incarnation, nothing removed or regressed, unknown non-expired members adopted, changed flag truthful. non-trivial+distinct = distinct (membership(a), membership(b), strategy) where the merge changed a's membership")
 	defer R.Flush()
 	c := &viewChecker{R: R}
 	sh, nsh := verifrt.Shard()
@@ -380,6 +428,25 @@ func TestVerif_viewlaws(t *testing.T) {
 					}
 				}
 			}
+		}
+	}
+	// the merge under the node's own options (IsExpired set): every ordered pair, PRNG-chosen stale members
+	rngE := verifrt.NewRand(verifrt.CaseSeed("viewlaws-expired", sh))
+	for i, a := range pool {
+		if i%nsh != sh {
+			continue
+		}
+		c.idx = 2000000 + i
+		for _, b := range pool {
+			exp := map[string]bool{}
+			for id := range b.Members {
+				if rngE.Intn(100) < 40 {
+					exp[id] = true
+				}
+			}
+			c.pairExpired(a, b, rngE.Intn(3), exp)
+			R.Eval()
+			R.Obs("pairs_with_is_expired", 1)
 		}
 	}
 	rng := verifrt.NewRand(verifrt.CaseSeed("viewlaws-triples", sh))
